@@ -111,7 +111,7 @@ func runC03(c *core.Ctx) {
 		}
 		covered[sp.Type] = true
 		c.Analysed(fn.String())
-		analyseLWWLoop(c, fn, sp)
+		analyseLWWLoop(c, fn, sp, lwwIDs{"R1", "R2", "R3"})
 	}
 	for name, fn := range fns {
 		if !covered[name] {
@@ -151,25 +151,36 @@ func rangeLoops(fn *an.Fn, canonX string) []*ast.RangeStmt {
 	return out
 }
 
-func analyseLWWLoop(c *core.Ctx, fn *an.Fn, sp lwwMap) {
+// lwwIDs names the rule ids under which analyseLWWLoop reports (empty = skip that part).
+type lwwIDs struct{ table, pair, norm string }
+
+type regRes struct {
+	bad      []string
+	undec    []string
+	rowsOK   int
+	distinct map[string]bool
+}
+
+func analyseLWWLoop(c *core.Ctx, fn *an.Fn, sp lwwMap, ids lwwIDs) {
+	R1, R2, R3 := ids.table, ids.pair, ids.norm
 	id := sp.Type + "." + sp.Map
 	loops := rangeLoops(fn, "p0."+sp.Map)
 	if len(loops) != 1 {
-		c.Undec("R1", "loop="+id, fn.Pos(), fmt.Sprintf("expected exactly one range loop over the incoming %s map in %s, found %d", sp.Map, fn.Name, len(loops)))
+		c.Undec(R1, "loop="+id, fn.Pos(), fmt.Sprintf("expected exactly one range loop over the incoming %s map in %s, found %d", sp.Map, fn.Name, len(loops)))
 		return
 	}
 	rs := loops[0]
 	g := fn.Graph()
 	header, body, doneB := g.LoopBlocks(rs)
 	if header == nil || body == nil {
-		c.Undec("R1", "loop="+id, rs.Pos(), "range loop blocks not found in CFG")
+		c.Undec(R1, "loop="+id, rs.Pos(), "range loop blocks not found in CFG")
 		return
 	}
 	roles := lwwRoles(sp.Map)
 	C := func(e ast.Expr) string { return roles.Apply(fn.Canon(e)) }
 
 	// R3 normalisation
-	if sp.Normalize != "" {
+	if sp.Normalize != "" && R3 != "" {
 		calls := fn.CallsTo(false, "", sp.Normalize)
 		ok := false
 		var pos token.Pos = rs.Pos()
@@ -179,7 +190,7 @@ func analyseLWWLoop(c *core.Ctx, fn *an.Fn, sp lwwMap) {
 				pos = call.Expr.Pos()
 			}
 		}
-		c.Check(ok, "R3", "func="+fn.Name+":call="+sp.Normalize, pos, sp.Normalize+"(incoming) must dominate the range over incoming."+sp.Map, 1)
+		c.Check(ok, R3, "func="+fn.Name+":call="+sp.Normalize, pos, sp.Normalize+"(incoming) must dominate the range over incoming."+sp.Map, 1)
 	}
 
 	// ---- classify assignments of the loop body
@@ -260,10 +271,10 @@ func analyseLWWLoop(c *core.Ctx, fn *an.Fn, sp lwwMap) {
 		}
 	}
 	for _, p := range problems {
-		c.Undec("R1", "loop="+id+":stmt", rs.Pos(), p)
+		c.Undec(R1, "loop="+id+":stmt", rs.Pos(), p)
 	}
 	if len(stmts) == 0 {
-		c.Undec("R1", "loop="+id, rs.Pos(), "no copy/store statements recognised in the merge loop")
+		c.Undec(R1, "loop="+id, rs.Pos(), "no copy/store statements recognised in the merge loop")
 		return
 	}
 
@@ -283,12 +294,11 @@ func analyseLWWLoop(c *core.Ctx, fn *an.Fn, sp lwwMap) {
 			bd.Eq["t."+r.TombField+"|"+r.TombConst] = "tTomb:" + r.Name
 		}
 	}
-	rows := an.Rows(atoms)
 	locs := make([]an.Loc, len(stmts))
 	for i, s := range stmts {
 		locs[i] = s.loc
 		if !s.loc.Valid() {
-			c.Undec("R1", "loop="+id, s.stmt.Pos(), "statement not found in CFG")
+			c.Undec(R1, "loop="+id, s.stmt.Pos(), "statement not found in CFG")
 			return
 		}
 	}
@@ -298,71 +308,85 @@ func analyseLWWLoop(c *core.Ctx, fn *an.Fn, sp lwwMap) {
 	}
 	start := an.Loc{B: body, I: 0}
 
-	type regRes struct {
-		bad     []string
-		undec   []string
-		rowsOK  int
-		distinct map[string]bool
-	}
-	res := map[string]*regRes{}
-	for _, r := range sp.Regs {
-		res[r.Name] = &regRes{distinct: map[string]bool{}}
-	}
-	pairBad, pairUndec := []string{}, []string{}
-	wbBad := []string{}
-	for _, row := range rows {
-		bd.Row = row
-		ex := g.Exec(start, locs, bd.Leaf, opts)
-		if ex.Overflow {
-			c.Undec("R1", "loop="+id, rs.Pos(), "path enumeration overflow")
-			return
-		}
-		triOr := func(pred func(s mergeStmt) bool) an.Tri {
-			v := an.F
-			for i, s := range stmts {
-				if pred(s) {
-					v = an.Or(v, ex.Tri(i))
-				}
-			}
-			return v
-		}
-		rowStr := rowString(row)
-		exists := !hasExists || row["exists"] == "T"
+	var rows []an.Row
+	var res map[string]*regRes
+	var pairBad, pairUndec, wbBad []string
+	evalAll := func() bool {
+		rows = an.Rows(atoms)
+		res = map[string]*regRes{}
 		for _, r := range sp.Regs {
-			fields := r.Fields
-			if fields == nil {
-				fields = []string{""}
+			res[r.Name] = &regRes{distinct: map[string]bool{}}
+		}
+		pairBad, pairUndec, wbBad = nil, nil, nil
+		for _, row := range rows {
+			bd.Row = row
+			ex := g.Exec(start, locs, bd.Leaf, opts)
+			if ex.Overflow {
+				c.Undec(R1, "loop="+id, rs.Pos(), "path enumeration overflow")
+				return false
 			}
-			want := !exists || row["cmp:"+r.Name] == "gt" ||
-				(r.TombConst != "" && row["cmp:"+r.Name] == "eq" && row["oTomb:"+r.Name] == "T" && row["tTomb:"+r.Name] == "F")
-			rr := res[r.Name]
-			for _, f := range fields {
-				got := triOr(func(s mergeStmt) bool {
-					return s.kind == "direct" || s.kind == "copy-whole" || (s.kind == "copy-field" && f != "" && s.field == f)
-				})
-				switch {
-				case got == an.U:
-					rr.undec = append(rr.undec, rowStr)
-				case (got == an.T) != want:
-					rr.bad = append(rr.bad, fmt.Sprintf("{%s} field=%q overwritten=%v expected=%v", rowStr, f, got, an.FromBool(want)))
-				default:
-					rr.rowsOK++
+			triOr := func(pred func(s mergeStmt) bool) an.Tri {
+				v := an.F
+				for i, s := range stmts {
+					if pred(s) {
+						v = an.Or(v, ex.Tri(i))
+					}
 				}
-				rr.distinct[fmt.Sprintf("%v", want)] = true
+				return v
+			}
+			rowStr := rowString(row)
+			exists := !hasExists || row["exists"] == "T"
+			for _, r := range sp.Regs {
+				fields := r.Fields
+				if fields == nil {
+					fields = []string{""}
+				}
+				want := !exists || row["cmp:"+r.Name] == "gt" ||
+					(r.TombConst != "" && row["cmp:"+r.Name] == "eq" && row["oTomb:"+r.Name] == "T" && row["tTomb:"+r.Name] == "F")
+				rr := res[r.Name]
+				for _, f := range fields {
+					got := triOr(func(s mergeStmt) bool {
+						return s.kind == "direct" || s.kind == "copy-whole" || (s.kind == "copy-field" && f != "" && s.field == f)
+					})
+					switch {
+					case got == an.U:
+						rr.undec = append(rr.undec, rowStr)
+					case (got == an.T) != want:
+						rr.bad = append(rr.bad, fmt.Sprintf("{%s} field=%q overwritten=%v expected=%v", rowStr, f, got, an.FromBool(want)))
+					default:
+						rr.rowsOK++
+					}
+					rr.distinct[fmt.Sprintf("%v", want)] = true
+				}
+			}
+			// write-back: any copy into the working variable must be followed by the store
+			copied := triOr(func(s mergeStmt) bool { return s.kind == "copy-whole" || s.kind == "copy-field" })
+			stored := triOr(func(s mergeStmt) bool { return s.kind == "writeback" || s.kind == "direct" })
+			if copied == an.T && stored != an.T {
+				wbBad = append(wbBad, rowStr)
+			}
+			// R2 pairing
+			recorded := triOr(func(s mergeStmt) bool { return s.kind == "record" })
+			if stored == an.U || recorded == an.U {
+				pairUndec = append(pairUndec, rowStr)
+			} else if stored != recorded {
+				pairBad = append(pairBad, fmt.Sprintf("{%s} stored=%v recorded=%v", rowStr, stored, recorded))
 			}
 		}
-		// write-back: any copy into the working variable must be followed by the store
-		copied := triOr(func(s mergeStmt) bool { return s.kind == "copy-whole" || s.kind == "copy-field" })
-		stored := triOr(func(s mergeStmt) bool { return s.kind == "writeback" || s.kind == "direct" })
-		if copied == an.T && stored != an.T {
-			wbBad = append(wbBad, rowStr)
+		return true
+	}
+	if !evalAll() {
+		return
+	}
+	// Conditions that are not part of the LWW rule become free boolean atoms: the table must not depend on them.
+	if extra := keys(bd.Unknown); len(extra) > 0 && len(extra) <= 4 {
+		for _, u := range extra {
+			atoms = append(atoms, an.Atom{Name: "extra:" + u, Values: []string{"T", "F"}})
+			bd.Bool[u] = "extra:" + u
 		}
-		// R2 pairing
-		recorded := triOr(func(s mergeStmt) bool { return s.kind == "record" })
-		if stored == an.U || recorded == an.U {
-			pairUndec = append(pairUndec, rowStr)
-		} else if stored != recorded {
-			pairBad = append(pairBad, fmt.Sprintf("{%s} stored=%v recorded=%v", rowStr, stored, recorded))
+		bd.Unknown = map[string]bool{}
+		if !evalAll() {
+			return
 		}
 	}
 	unknown := keys(bd.Unknown)
@@ -372,11 +396,11 @@ func analyseLWWLoop(c *core.Ctx, fn *an.Fn, sp lwwMap) {
 		detail := fmt.Sprintf("%d rows over atoms %v; statements: %s", len(rows), atomNames(atoms), stmtDescs(stmts))
 		switch {
 		case len(rr.bad) > 0:
-			c.Viol("R1", key, rs.Pos(), "decision table differs from LWW oracle on rows: "+strings.Join(head(rr.bad, 6), "; ")+" | "+detail)
+			c.Viol(R1, key, rs.Pos(), "decision table differs from LWW oracle on rows: "+strings.Join(head(rr.bad, 6), "; ")+" | "+detail)
 		case len(rr.undec) > 0:
-			c.Undec("R1", key, rs.Pos(), fmt.Sprintf("guard not decidable on %d rows (unrecognised conditions: %v), e.g. {%s}", len(rr.undec), unknown, rr.undec[0]))
+			c.Undec(R1, key, rs.Pos(), fmt.Sprintf("guard not decidable on %d rows (unrecognised conditions: %v), e.g. {%s}", len(rr.undec), unknown, rr.undec[0]))
 		default:
-			c.Hold("R1", key, rs.Pos(), detail, rr.rowsOK)
+			c.Hold(R1, key, rs.Pos(), detail, rr.rowsOK)
 		}
 		// field-wise copies of fields outside the declared group
 		for _, s := range stmts {
@@ -390,7 +414,7 @@ func analyseLWWLoop(c *core.Ctx, fn *an.Fn, sp lwwMap) {
 					}
 				}
 				if !found {
-					c.Undec("R1", key+":field="+s.field, s.stmt.Pos(), "field copied from the incoming entry belongs to no register in the table")
+					c.Undec(R1, key+":field="+s.field, s.stmt.Pos(), "field copied from the incoming entry belongs to no register in the table")
 				}
 			}
 		}
@@ -413,20 +437,21 @@ func analyseLWWLoop(c *core.Ctx, fn *an.Fn, sp lwwMap) {
 		}
 	}
 	if nCopy > 0 {
-		c.Check(len(wbBad) == 0, "R1", "writeback="+id, rs.Pos(), fmt.Sprintf("every copy into the working entry is followed by the store into recv.%s[k]; failing: %v", sp.Map, head(wbBad, 4)), len(rows))
+		c.Check(len(wbBad) == 0, R1, "writeback="+id, rs.Pos(), fmt.Sprintf("every copy into the working entry is followed by the store into recv.%s[k]; failing: %v", sp.Map, head(wbBad, 4)), len(rows))
 	}
 	key := "pair=" + id
 	switch {
+	case R2 == "":
 	case len(pairBad) > 0:
-		c.Viol("R2", key, rs.Pos(), "store and change record disagree on rows: "+strings.Join(head(pairBad, 6), "; "))
+		c.Viol(R2, key, rs.Pos(), "store and change record disagree on rows: "+strings.Join(head(pairBad, 6), "; "))
 	case len(pairUndec) > 0:
-		c.Undec("R2", key, rs.Pos(), fmt.Sprintf("pairing undecidable on %d rows (unrecognised: %v)", len(pairUndec), unknown))
+		c.Undec(R2, key, rs.Pos(), fmt.Sprintf("pairing undecidable on %d rows (unrecognised: %v)", len(pairUndec), unknown))
 	default:
-		c.Hold("R2", key, rs.Pos(), fmt.Sprintf("store ⇔ record on all %d rows; statements: %s", len(rows), stmtDescs(stmts)), len(rows))
+		c.Hold(R2, key, rs.Pos(), fmt.Sprintf("store ⇔ record on all %d rows; statements: %s", len(rows), stmtDescs(stmts)), len(rows))
 	}
 	// record value must be what was stored
 	for _, s := range stmts {
-		if s.kind != "record" {
+		if s.kind != "record" || R2 == "" {
 			continue
 		}
 		as := s.stmt.(*ast.AssignStmt)
@@ -443,7 +468,7 @@ func analyseLWWLoop(c *core.Ctx, fn *an.Fn, sp lwwMap) {
 				}
 			}
 		}
-		c.Check(ok, "R2", "recordvalue="+id, s.stmt.Pos(), "the value recorded in the change is the value stored into the receiver map in the same block/path: "+s.desc, 1)
+		c.Check(ok, R2, "recordvalue="+id, s.stmt.Pos(), "the value recorded in the change is the value stored into the receiver map in the same block/path: "+s.desc, 1)
 	}
 }
 
